@@ -285,6 +285,61 @@ def build_analyze(ck, src, obs=None):
     return {"eng": eng, "goals": goals, "hyps": list(src.hyps)}
 
 
+def build_misc(ck, preset, src, obs=None):
+    """new() starts with no counters; set_network_size only changes the size; get_per_ip_limit = min(cap, max(1, floor(size*fraction)));
+    analyze_unified dispatches on the address family"""
+    fraction = FRACTIONS[preset]
+    eng = ck.engine() if obs is None else ck.meta_engine()
+    cfg = {f: src.bv("cfg." + f, 64) for f in CFG_FIELDS}
+    cfg["max_network_fraction"] = fpv(fraction)
+    cfg["enable_geolocation_check"] = src.bool("cfg.enable_geolocation_check")
+    size = src.bv("network_size", 64)
+    ip6, ip4 = src.bytes("ip6", 16), src.bytes("ip4", 4)
+    hyps = list(src.hyps) + [z3.ULE(size, bv(1 << 32, 64)), z3.UGE(cfg["max_per_ip_cap"], 1)]
+    if obs is None:
+        st = State()
+        config = mk_struct(eng, "IPDiversityConfig", cfg)
+        st1, E = eng.call(ck.fn_in("IPDiversityEnforcer", "new"), [config], st)
+        rE = eng.alloc(st1, E)
+        empties = []
+        for n, kw in MAPS:
+            m = field(eng, E, "IPDiversityEnforcer", n)
+            empties.append(z3.BoolVal(True) if (not isinstance(m, VMap) or m.present is None) else z3.Not(z3.Select(m.present, z3.BitVec("k." + n, kw))))
+        size0 = field(eng, E, "IPDiversityEnforcer", "network_size")
+        st2, _ = eng.call(ck.fn_in("IPDiversityEnforcer", "set_network_size"), [rE, size], st1)
+        E2 = eng.load(st2, rE)
+        size2 = field(eng, E2, "IPDiversityEnforcer", "network_size")
+        st3, lim = eng.call(ck.fn_in("IPDiversityEnforcer", "get_per_ip_limit"), [rE], st2)
+        info = eng.enum_info("IpAddr")
+        st4, u6 = eng.call(ck.fn_in("IPDiversityEnforcer", "analyze_unified"), [rE, VEnum(info, bv(1, 8), {1: (ip6,)})], st2)
+        st5, u4 = eng.call(ck.fn_in("IPDiversityEnforcer", "analyze_unified"), [rE, VEnum(info, bv(0, 8), {0: (ip4,)})], st2)
+        ui = eng.enum_info("UnifiedIPAnalysis")
+        is6 = z3.And(u6.idx == bv(0, 8), u6.pay[0][0].idx == bv(ui.index("IPv6"), 8))
+        is4 = z3.And(u4.idx == bv(0, 8), u4.pay[0][0].idx == bv(ui.index("IPv4"), 8))
+        pc = z3.And(st3.pc, st4.pc, st5.pc)
+        o = {"empty": z3.And(*empties), "size0": size0, "size2": size2, "limit": lim, "is6": is6, "is4": is4}
+    else:
+        pc = z3.BoolVal(True)
+        o = {"empty": z3.BoolVal(bool(obs["empty"])), "size0": bv(int(obs["size0"]), 64), "size2": bv(int(obs["size2"]), 64), "limit": bv(int(obs["limit"]), 64),
+             "is6": z3.BoolVal(bool(obs["is6"])), "is4": z3.BoolVal(bool(obs["is4"]))}
+    G = {"new_enforcer_tracks_nothing": z3.And(o["empty"], o["size0"] == 0),
+         "set_network_size_sets_the_size": o["size2"] == size,
+         "per_ip_limit_is_min_of_cap_and_floor_of_size_times_fraction_at_least_one": o["limit"] == per_ip_limit(cfg, size, fraction),
+         "analyze_unified_dispatches_on_the_address_family": z3.And(o["is6"], o["is4"])}
+    return {"eng": eng, "hyps": hyps, "goals": {g: z3.Implies(pc, f) for g, f in G.items()}}
+
+
+def group_misc(ck, preset):
+    src = harness.Src()
+    R = build_misc(ck, preset, src)
+    params = {"preset": preset, "fraction": FRACTIONS[preset]}
+    rp = harness.make_replayer(ck, "security", "misc", lambda s, obs: build_misc(ck, preset, s, obs), params)
+    ck.register_src("misc", params, src)
+    for g, f in R["goals"].items():
+        ck.prove(f"misc[{preset}]/{g}", R["eng"], R["hyps"], f, on_sat=rp, meta={"goal": g})
+    ck.side(f"misc[{preset}]/side", R["eng"], R["hyps"], on_sat=rp)
+
+
 def group_analyze(ck):
     src = harness.Src()
     R = build_analyze(ck, src)
@@ -304,6 +359,8 @@ def run(tier):
     if tier == "quick":
         ck.guarded("v4[permissive]", lambda: group_add_remove(ck, False, "permissive"))
     ck.guarded("analyze", lambda: group_analyze(ck))
+    for p in (["default", "permissive"] if tier == "quick" else ["default", "testnet", "permissive"]):
+        ck.guarded(f"misc[{p}]", lambda p=p: group_misc(ck, p))
     ck.run_queries()
     ck.out.bounds = [
         "one add / remove / can_accept step from an ARBITRARY enforcer state: 8 LruCaches as SMT arrays over 128/32/64-bit keys, all 10 integer caps symbolic u64, network_size <= 2^32",
@@ -324,6 +381,8 @@ def replay(path):
 
 
 def _rebuild(ck, driver, params):
+    if driver == "misc":
+        return lambda s, obs: build_misc(ck, params["preset"], s, obs)
     if driver == "add_remove":
         return lambda s, obs: build_add_remove(ck, params["v6"], params["preset"], s, obs)["goals"]
     return lambda s, obs: build_analyze(ck, s, obs)
